@@ -116,13 +116,14 @@ theorem Mon.acceptsFrom_iff {S : Type} (M : Mon S) (s : S) (tr : List Obs) :
 
 /-! ## Part 1: `Silent`, explicitly -/
 
-/-- event `o` is the positive reply of connection `c` to a request that ends an activation of scope `s` -/
+/-- event `o` is a reply of connection `c` that ends an activation of scope `s`: a positive reply to the
+matching deactivate, or any reply to `*IDN?` / the end of a disconnect -/
 def endsReply (c : Conn) (s : Scope) : Obs → Prop
-  | .reply c' r true => c' = c ∧ ends r s = true
+  | .reply c' r ok => c' = c ∧ replyEnds r ok = true ∧ ends r s = true
   | _ => False
 
 /-- every update delivered to `c` for `m:p` is preceded by a request marker `activate s` of `c` with `s`
-covering `m:p` such that no positive reply of `c` to a request ending `s` lies in between -/
+covering `m:p` such that no reply of `c` ending `s` (`endsReply`) lies in between -/
 def SilentExplicit (tr : List Obs) : Prop :=
   ∀ (i : Nat) (c : Conn) (m : Mod) (p : Par) (e : Entry), tr[i]? = some (Obs.deliver c m p e) →
     ∃ (j : Nat) (s : Scope), j < i ∧ tr[j]? = some (Obs.reqStart c (.activate s)) ∧ covers s m p = true ∧
@@ -159,22 +160,24 @@ theorem mem_liveNext (live : Conn → List Scope) (o : Obs) (c : Conn) (s : Scop
     | ident => simp [liveNext, endsReply]
     | disconnect => simp [liveNext, endsReply]
   | reply c' r ok =>
-    cases ok with
-    | false => simp [liveNext, endsReply]
-    | true =>
-      simp only [liveNext, set_apply, endsReply, reduceCtorEq, false_or]
+    simp only [liveNext, endsReply, reduceCtorEq, false_or]
+    split
+    · rename_i hre
+      simp only [set_apply]
       split
       · rename_i h; subst h
-        simp [List.mem_filter]
+        simp [List.mem_filter, hre]
       · rename_i h
         have : ¬ c' = c := fun h' => h h'.symm
         simp [this]
+    · rename_i hre
+      simp [hre]
   | deliver c' m p e => simp [liveNext, endsReply]
   | emit u m p e => simp [liveNext, endsReply]
   | emitDone u => simp [liveNext, endsReply]
 
-/-- the monitor state: `s` is held for `c` iff `c` started an `activate s` and no positive reply of `c`
-to a request ending `s` came later -/
+/-- the monitor state: `s` is held for `c` iff `c` started an `activate s` and no reply of `c`
+ending `s` (`endsReply`) came later -/
 theorem mem_liveAfter (tr : List Obs) (c : Conn) (s : Scope) :
     s ∈ liveAfter tr c ↔ Since (.reqStart c (.activate s)) (endsReply c s) tr := by
   induction tr using rev_ind with
